@@ -3,57 +3,117 @@
 (* RPC authentication (property C04, third sentence;                       *)
 (* rpc/internal/auth/auth.go, serverinterceptors/authinterceptor.go).      *)
 (*                                                                         *)
-(* The store (a Redis hash) holds token "T1" for app "a1" and nothing for  *)
-(* app "a2"; it either works or fails for the whole behaviour.  A call     *)
-(* carries app/token metadata, each possibly absent or empty.              *)
+(* The store (a Redis hash app -> token) is part of the state and changes  *)
+(* between calls: a token is stored, replaced or deleted for app "a1", the *)
+(* store goes down and comes back.  A call carries app/token metadata,     *)
+(* each possibly absent or empty.                                          *)
+(*                                                                         *)
 (* The statement: reject a call lacking app/token metadata or whose token  *)
-(* differs from the stored one; admit a call whose token matches; an app   *)
-(* with no stored token, or a store failure, is rejected only in strict    *)
-(* mode.  `cached` (the authenticator's 5-minute app -> token cache) is    *)
-(* modelled only to make TLC drive the real code through hit and miss; the *)
-(* verdict does not depend on it because the store does not change.        *)
+(* differs from the one stored for its app; admit a call whose token       *)
+(* matches; an app with no stored token, or a store failure, is rejected   *)
+(* only in strict mode.  It says nothing about caching.  An implementation *)
+(* may remember the result of a SUCCESSFUL lookup for a while, so a call   *)
+(* may be judged                                                            *)
+(*   - by the store as it is now (token / no token / failure), or          *)
+(*   - by a token the store held for this app at an earlier call that      *)
+(*     could look it up successfully (store up, token present) within the  *)
+(*     cache lifetime (`seen`).                                            *)
+(* Nothing else explains a verdict: in particular an earlier failure or an *)
+(* earlier "no token" answer is not something a later call may be judged   *)
+(* by.  Where the two views disagree both verdicts are allowed ("either"). *)
+(* The whole behaviour stays inside the cache lifetime (5 minutes); expiry *)
+(* is not modelled.                                                        *)
 (***************************************************************************)
 EXTENDS Integers, Sequences, FiniteSets, TLC
 
-CONSTANTS MaxCalls, Kinds
+CONSTANTS MaxCalls,   \* calls per behaviour
+          MaxEnv,     \* store changes per behaviour
+          Kinds,      \* {"unary", "stream"}
+          CallSet     \* the <<app, token>> pairs offered
 
-VARIABLES strict, store, kind, cached, n, out
-core == <<strict, store, kind, cached, n>>
+VARIABLES strict, kind,
+          up,         \* the store answers
+          cur,        \* token stored for app a1 ("" = none); app a2 never has one
+          seen,       \* app -> tokens the store held at earlier successful-lookup opportunities
+          n, nenv,
+          lastenv,    \* the previous step was a store change (at most one between two calls)
+          out
+core == <<strict, kind, up, cur, seen, n, nenv, lastenv>>
 vars == <<core, out>>
 
-Apps   == {"a1", "a2", "", "absent"}
-Tokens == {"T1", "T2", "", "absent"}
+RealApps == {"a1", "a2"}
+Toks == {"T1", "T2"}
+Missing(x) == x \in {"", "absent"}
 
-Stored(app) == IF app = "a1" THEN "T1" ELSE ""
+Stored(app) == IF app = "a1" THEN cur ELSE ""
 
-Verdict(app, tok) ==
-  IF app \in {"", "absent"} \/ tok \in {"", "absent"} THEN "reject"
-  ELSE IF store = "failing" \/ Stored(app) = "" THEN (IF strict THEN "reject" ELSE "admit")
-  ELSE IF tok = Stored(app) THEN "admit" ELSE "reject"
+\* the store as a fresh lookup sees it
+NowView(app) == IF ~up THEN "fail" ELSE IF Stored(app) = "" THEN "none" ELSE Stored(app)
+
+Judge(view, tok) ==
+  IF view \in {"fail", "none"} THEN (IF strict THEN "reject" ELSE "admit")
+  ELSE IF tok = view THEN "admit" ELSE "reject"
+
+Views(app) == {NowView(app)} \cup (IF app \in RealApps THEN seen[app] ELSE {})
+
+Verdicts(app, tok) ==
+  IF Missing(app) \/ Missing(tok) THEN {"reject"}
+  ELSE {Judge(v, tok) : v \in Views(app)}
+
+Expect(app, tok) ==
+  LET vs == Verdicts(app, tok)
+  IN IF vs = {"admit"} THEN "admit" ELSE IF vs = {"reject"} THEN "reject" ELSE "either"
 
 Init ==
-  /\ strict \in BOOLEAN /\ store \in {"ok", "failing"} /\ kind \in Kinds
-  /\ cached = {} /\ n = 0
-  /\ out = [op |-> "config", strict |-> strict, store |-> store, kind |-> kind]
+  /\ strict \in BOOLEAN /\ kind \in Kinds /\ up \in BOOLEAN /\ cur \in {"", "T1"}
+  /\ seen = [a \in RealApps |-> {}]
+  /\ n = 0 /\ nenv = 0 /\ lastenv = FALSE
+  /\ out = [op |-> "config", strict |-> strict, kind |-> kind, up |-> up, token |-> cur]
 
 Call(app, tok) ==
   /\ n < MaxCalls
-  /\ n' = n + 1
-  /\ cached' = IF app \notin {"", "absent"} /\ tok \notin {"", "absent"} /\ store = "ok" /\ Stored(app) # ""
-                 THEN cached \cup {app} ELSE cached
-  /\ out' = [op |-> "rpc", app |-> app, token |-> tok, expect |-> Verdict(app, tok),
-             hit |-> (app \in cached)]
-  /\ UNCHANGED <<strict, store, kind>>
+  /\ n' = n + 1 /\ lastenv' = FALSE
+  /\ seen' = IF ~Missing(app) /\ ~Missing(tok) /\ app \in RealApps /\ up /\ Stored(app) # ""
+               THEN [seen EXCEPT ![app] = @ \cup {Stored(app)}] ELSE seen
+  /\ out' = [op |-> "rpc", app |-> app, token |-> tok, expect |-> Expect(app, tok),
+             now |-> NowView(IF app \in RealApps THEN app ELSE "a2"),
+             cached |-> (IF app \in RealApps THEN seen[app] ELSE {})]
+  /\ UNCHANGED <<strict, kind, up, cur, nenv>>
 
-Next == \E a \in Apps, t \in Tokens : Call(a, t)
+\* the environment changes the store between two calls
+SetToken(t) ==
+  /\ 0 < n /\ n < MaxCalls /\ nenv < MaxEnv /\ ~lastenv /\ t # cur
+  /\ cur' = t /\ nenv' = nenv + 1 /\ lastenv' = TRUE
+  /\ out' = [op |-> "settoken", app |-> "a1", token |-> t]
+  /\ UNCHANGED <<strict, kind, up, seen, n>>
+
+Toggle ==
+  /\ 0 < n /\ n < MaxCalls /\ nenv < MaxEnv /\ ~lastenv
+  /\ up' = ~up /\ nenv' = nenv + 1 /\ lastenv' = TRUE
+  /\ out' = [op |-> IF up THEN "down" ELSE "up"]
+  /\ UNCHANGED <<strict, kind, cur, seen, n>>
+
+Next == (\E c \in CallSet : Call(c[1], c[2])) \/ (\E t \in Toks \cup {""} : SetToken(t)) \/ Toggle
 Spec == Init /\ [][Next]_vars
 
-MissingMetadataRejected ==
-  out.op = "rpc" /\ (out.app \in {"", "absent"} \/ out.token \in {"", "absent"}) => out.expect = "reject"
-MatchAdmitted == out.op = "rpc" /\ out.app = "a1" /\ out.token = "T1" /\ store = "ok" => out.expect = "admit"
-DifferRejected == out.op = "rpc" /\ out.app = "a1" /\ out.token = "T2" /\ store = "ok" => out.expect = "reject"
+(* ---------------------------------------------------------------- call sets *)
+AllCalls  == {<<a, t>> : a \in {"a1", "a2", "", "absent"}, t \in {"T1", "T2", "", "absent"}}
+CoreCalls == {<<a, t>> : a \in RealApps, t \in Toks} \cup {<<"", "T1">>, <<"absent", "T1">>, <<"a1", "">>, <<"a1", "absent">>}
+FewCalls  == {<<"a1", "T1">>, <<"a1", "T2">>, <<"a2", "T1">>, <<"absent", "absent">>}
+
+(* ---------------------------------------------------------------- properties *)
+IsCall == out.op = "rpc"
+MissingMetadataRejected == IsCall /\ (Missing(out.app) \/ Missing(out.token)) => out.expect = "reject"
+\* with nothing remembered the statement decides alone
+FreshMatchAdmitted  == IsCall /\ out.cached = {} /\ out.now \in Toks /\ out.token = out.now => out.expect = "admit"
+FreshDifferRejected == IsCall /\ out.cached = {} /\ out.now \in Toks /\ out.token \in Toks /\ out.token # out.now
+                          => out.expect = "reject"
 LenientOnlyWhenNotStrict ==
-  out.op = "rpc" /\ out.expect = "admit" /\ (store = "failing" \/ out.app = "a2") => ~strict
-\* the cache cannot change a verdict
-CacheIrrelevant == out.op = "rpc" /\ out.hit => out.app = "a1" /\ store = "ok"
+  IsCall /\ out.expect = "admit" /\ out.now \in {"fail", "none"} /\ out.cached = {} => ~strict
+\* an earlier failure / "no token" answer never makes a wrong token acceptable later
+ErrorsAreNotRemembered ==
+  IsCall /\ out.now \in Toks /\ out.token \in Toks /\ out.token # out.now /\ out.token \notin out.cached
+     => out.expect = "reject"
+\* a token that was never stored is never admitted while a token is stored
+StrictNeverLenient == IsCall /\ strict /\ out.expect # "reject" => out.token \in ({out.now} \cup out.cached)
 =============================================================================
